@@ -12,6 +12,7 @@ From Coq Require Import ZArith List Bool Sorted Lia.
 Require Import DS.Model.MetaBase DS.Gen.GenRepoint DS.Model.Meta DS.Model.MetaSpec.
 Require Import DS.Proofs.RepointProofs DS.Proofs.MetaProofs.
 Require Import DS.Model.MetaPy DS.Gen.GenMeta DS.Proofs.MetaGenProofs DS.Gen.GenFileOps DS.Proofs.FileOpsGenProofs.
+Require Import DS.Model.CommitBase DS.Gen.GenCommit DS.Proofs.StepGenProofs.
 Import ListNotations.
 Open Scope Z_scope.
 
@@ -205,6 +206,42 @@ Proof.
   split; [exact gen_final_manifests_agrees|]. split; [exact gen_append_manifests_agrees | exact gen_stamps_agree].
 Qed.
 Print Assumptions C15_file_ops_regenerated.
+
+(* Put together: ONE STEP of the sequential machine over which every history theorem of this file is proved is, for every
+   state and operation, the composition of the regenerated kernels -- a transaction (partitioning, dispatch, base manifests,
+   delete rewrite, append manifest, create_snapshot with the expiry folded in, retention) and a snapshot deletion, each
+   followed by MetadataManager.commit's stamp rule (Gen/GenCommit.v gen_new_lu) and metadata log.  create_snapshot (statement
+   shape checked one by one, metadata update emitted) included.  So `replay` IS the fold of regenerated code; what is left to
+   the correspondence is the file manager's contract and the I/O around these kernels. *)
+Theorem C15_step_regenerated :
+  (forall st ops id t tu f,
+     step_full st (Txn ops id t tu f) =
+     match gen_txn_meta (md st) ops id t with
+     | PyOk None => (st, NoCommit, None)
+     | PyRaise => (st, Aborted, None)
+     | PyOk (Some m') =>
+         (gen_md_commit st m' tu f, Committed,
+          if gen_is_file_txn (tx_adds ops) (tx_dels ops)
+          then match base_manifests (md st) with
+               | Some base => Some (new_snap (md st) id t (apply_deletes (tx_dels ops) base ++ append_manifest id (last_seq (md st) + 1) (tx_adds ops)))
+               | None => None
+               end
+          else None)
+     end)
+  /\ (forall st id tu f,
+     step_full st (DeleteSnap id tu f) =
+     match gen_delete_snapshot (md st) id with
+     | PyOk None => (st, NoCommit, None)
+     | PyOk (Some m') => (gen_md_commit st m' tu f, Committed, None)
+     | PyRaise => (st, Aborted, None)
+     end)
+  /\ (forall m id t ml cut,
+     gen_create_snapshot m id t ml (gen_parent m) (gen_seq m) cut
+     = match create_snapshot m id t ml cut with Some m' => PyOk m' | None => PyRaise end).
+Proof.
+  split; [exact txn_step_regenerated|]. split; [exact delete_step_regenerated|]. exact gen_create_snapshot_agrees.
+Qed.
+Print Assumptions C15_step_regenerated.
 
 (* ------------------------------------------------------------------ C09 pieces proved over the same model
    (re-exported by Props/C09.v): lookups by timestamp / by id, and deleting the current snapshot. *)
